@@ -145,6 +145,16 @@ def _run_one(case, ctx):
     if adapters.is_leaf(m):
         raise monitor.OutOfScope()
     common.domain(m)
+    import zlib
+    pre = zlib.crc32(repr(case["recipe"]).encode()) % 4
+    if pre == 0:
+        # the object has already been converted in the un-asserted form (the documented default) before the asserted one is asked for
+        ctx.count("count:asserted-after-default-conversion")
+        try:
+            with monitor.guard():
+                m.to_ge_polyhedron()
+        except Exception:
+            pass
     if case.get("configurator"):
         ctx.count("count:configurator-polyhedra")
         ctx.call("ge_polyhedron", lambda: m.ge_polyhedron)
